@@ -421,6 +421,7 @@ fn near_misses(key: &str, ident: &str, rng: &mut Rng) -> String {
         ident.to_lowercase(),
         format!("{key}_"),
         format!("_{key}"),
+        format!("r#{key}"),
         format!(" {key}"),
         format!("{key} "),
         format!("{key}\t"),
@@ -576,8 +577,10 @@ impl<'a> Mutator<'a> {
                         self.mutate(x, v, rng);
                     }
                     if self.cfg.badkey && self.hit(rng) {
+                        let long_non_ascii: String = "é".repeat(40);
                         let bad = match k {
                             KeyTy::Str => None,
+                            _ if rng.chance(1, 8) => Some(if rng.chance(1, 2) { long_non_ascii } else { "かきくけこ".repeat(6) }),
                             KeyTy::U8 => Some(rng.pick(&["abc", "256", "-1", "", "1.5", "say \"7\"", "back\\slash", "7\n", "cafe\u{301}"]).to_string()),
                             KeyTy::I32 => Some(rng.pick(&["x", "99999999999", "", "1e3", "\"1\"", "1\t"]).to_string()),
                             KeyTy::Char => Some(rng.pick(&["ab", "", "abc", "\"\"", "\\n"]).to_string()),
@@ -673,7 +676,9 @@ impl<'a> Mutator<'a> {
                                         members.remove(p);
                                     }
                                     (1, Some(p)) => members[p].1 = other_kind(&Doc::Str(String::new()), rng),
-                                    (2, Some(p)) => members[p].1 = Doc::Str("NoSuchVariant".to_string()),
+                                    (2, Some(p)) => {
+                                        members[p].1 = Doc::Str(rng.pick(&["NoSuchVariant", "Énumération_inconnue_très_longue", "abcéx", ""]).to_string())
+                                    }
                                     (3, Some(p)) => {
                                         // near miss of a real variant name, or the un-renamed identifier
                                         let v = rng.pick(variants);
@@ -705,7 +710,7 @@ impl<'a> Mutator<'a> {
                             let v = rng.pick(variants);
                             let key = effective_key(&v.ident, &v.rename, *rename_all);
                             *doc = match rng.below(3) {
-                                0 => Doc::Str("NoSuchVariant".to_string()),
+                                0 => Doc::Str(rng.pick(&["NoSuchVariant", "Énumération_inconnue_très_longue", "abcéx"]).to_string()),
                                 1 => Doc::Str(near_misses(&key, &v.ident, rng)),
                                 _ => Doc::Str(String::new()),
                             };
@@ -812,7 +817,21 @@ impl<'a> Mutator<'a> {
                     let k = if f.skip { f.ident.clone() } else { near_misses(&f.key(rename_all), &f.ident, rng) };
                     (k, true)
                 } else {
-                    (rng.pick(&["extra", "turbo", "unknown_key", "Extra", "x"]).to_string(), false)
+                    (
+                        rng.pick(&[
+                            "extra",
+                            "turbo",
+                            "unknown_key",
+                            "Extra",
+                            "x",
+                            "abcéx",
+                            "clé_inconnue_très_longue_à_souhait",
+                            "ключ",
+                            "a_very_long_unknown_key_that_goes_on_and_on_and_on",
+                        ])
+                        .to_string(),
+                        false,
+                    )
                 };
                 let known = fields.iter().any(|f| !f.skip && f.key(rename_all) == key);
                 let is_tag = tag.map(|t| *t == key).unwrap_or(false);
